@@ -43,7 +43,8 @@ def write_replay(pid, module, fn, args, message, kind='crosshair'):
               kind=kind)
   h = hashlib.md5((module + fn + repr(sorted(args.items(), key=str)) if isinstance(args, dict)
                    else module + fn + repr(args)).encode()).hexdigest()[:10]
-  path = os.path.join(_replay_dir(pid), f'{fn}-{h}.json')
+  safe = ''.join(c if c.isalnum() or c in '_-' else '_' for c in fn)
+  path = os.path.join(_replay_dir(pid), f'{safe}-{h}.json')
   with open(path, 'w') as f:
     json.dump(body, f, indent=1)
   return path
@@ -54,9 +55,12 @@ import ast, json, sys, importlib, traceback
 body = json.load(open(sys.argv[1]))
 args = ast.literal_eval(body["args_repr"])
 mod = importlib.import_module(body["module"])
-fn = getattr(mod, body["fn"])
 try:
-  r = fn(**args) if isinstance(args, dict) else fn(args)
+  if body.get("kind") == "direct":
+    r = mod.replay_direct(body)
+  else:
+    fn = getattr(mod, body["fn"])
+    r = fn(**args) if isinstance(args, dict) else fn(args)
 except Exception as e:
   traceback.print_exc()
   print("REPLAY raised " + type(e).__name__ + ": " + str(e)[:300])
